@@ -127,6 +127,24 @@ func rewriteClock(fset *token.FileSet, filename string, src []byte) ([]byte, boo
 		changed = true
 		return true
 	})
+	// x.mu.TryLock() / x.mu.TryRLock() anywhere in an expression become verifrt.TryLock(&x.mu) / TryRLock
+	ast.Inspect(f, func(n ast.Node) bool {
+		call, ok := n.(*ast.CallExpr)
+		if !ok || len(call.Args) != 0 {
+			return true
+		}
+		sel, ok := call.Fun.(*ast.SelectorExpr)
+		if !ok || (sel.Sel.Name != "TryLock" && sel.Sel.Name != "TryRLock") {
+			return true
+		}
+		if _, isSel := sel.X.(*ast.SelectorExpr); !isSel {
+			return true
+		}
+		call.Fun = &ast.SelectorExpr{X: ast.NewIdent("verifrt"), Sel: ast.NewIdent(sel.Sel.Name)}
+		call.Args = []ast.Expr{&ast.UnaryExpr{Op: token.AND, X: sel.X}}
+		changed = true
+		return true
+	})
 	// sync.Map-style method calls (x.m.Load / Store / LoadOrStore / ... on a field) are
 	// scheduling points under the executor; natively a verifrt.Yield() is inserted
 	// before the statement that contains one (purely syntactic: an extra yield before
